@@ -302,3 +302,10 @@ def c01_dtype(ctx, case):
          "input is not modified")
 def c01_layout(ctx, case):
     _dt.layout_body(ctx, case, _dt.TABLES["C01"])
+
+
+@sub("C01.single", strategy=_dt.single_case(sorted(_dt.TABLES["C01"])), quick=200, thorough=4000,
+     doc="float32 / complex64 samples are taken for what they are: same result (to 1e-3 of the largest value) as the same values "
+         "in double precision")
+def c01_single(ctx, case):
+    _dt.single_body(ctx, case, _dt.TABLES["C01"])
